@@ -85,14 +85,26 @@ static long long clock_offset(void) {
   return off;
 }
 
+/* Time that the simulator lets pass in one step (seconds, all clocks): the simulated process calls
+ * verif_clock_advance() on itself to fast-forward idle time ("the handle is left alone for a minute").
+ * It moves what the *program* reads through clock_gettime (Instant, SystemTime); timeouts the kernel
+ * measures (condition variables, sleeps) are unaffected. */
+static long long advanced = 0;
+void verif_clock_advance(long long seconds) { __atomic_fetch_add(&advanced, seconds, __ATOMIC_SEQ_CST); }
+
 int clock_gettime(clockid_t id, struct timespec *ts) {
   static int (*real)(clockid_t, struct timespec *) = 0;
   if (!real) {
     real = (int (*)(clockid_t, struct timespec *))dlsym(RTLD_NEXT, "clock_gettime");
   }
   int rc = real(id, ts);
-  if (rc == 0 && ts && (id == CLOCK_REALTIME || id == CLOCK_REALTIME_COARSE)) {
-    ts->tv_sec += clock_offset();
+  if (rc == 0 && ts) {
+    long long adv = __atomic_load_n(&advanced, __ATOMIC_SEQ_CST);
+    if (id == CLOCK_REALTIME || id == CLOCK_REALTIME_COARSE) {
+      ts->tv_sec += clock_offset() + adv;
+    } else if (id == CLOCK_MONOTONIC || id == CLOCK_MONOTONIC_COARSE || id == CLOCK_MONOTONIC_RAW || id == CLOCK_BOOTTIME) {
+      ts->tv_sec += adv;
+    }
   }
   return rc;
 }
